@@ -66,7 +66,9 @@ def run_case(ctx, g, rng):
     names = [p for p in rng.sample(pool_, k=len(pool_)) if d not in p]
     ups = rng.sample(UBASE, k=len(UBASE))
     recs = []
-    for _ in range(rng.randint(1, 3)):
+    # (one app in twelve is built from a converter without any record - "pass an empty list if you plan to build the
+    #  converter incrementally": every prefix is unknown to it until it grows)
+    for _ in range(rng.randint(1, 3) if rng.random() < 0.92 else 0):
         p, u = names.pop(), ups.pop()
         ps = tuple(names.pop() for _ in range(rng.randint(0, 1)))
         us = tuple(ups.pop() for _ in range(rng.randint(0, 1)))
@@ -95,8 +97,9 @@ def run_case(ctx, g, rng):
         if rng.random() < 0.6:
             # a second resolver, for another converter, mounted on the same apps under /alt: the first one still
             # answers for its own converter
-            d2 = rng.choice([x for x in (":", "/", "_", "::") if x not in recs[0].prefix and (x != d or rng.random() < 0.3)] or [d])
-            other = api.Converter.from_prefix_map({"zzalt": "http://zz.alt/", recs[0].prefix: "http://zz.alt/shadow_"}, delimiter=d2)
+            shadow = recs[0].prefix if recs else "GO"
+            d2 = rng.choice([x for x in (":", "/", "_", "::") if x not in shadow and (x != d or rng.random() < 0.3)] or [d])
+            other = api.Converter.from_prefix_map({"zzalt": "http://zz.alt/", shadow: "http://zz.alt/shadow_"}, delimiter=d2)
             fapp_.register_blueprint(get_flask_blueprint(other), url_prefix="/alt", name="alt")
             aapp_.include_router(get_fastapi_router(other), prefix="/alt")
             S.counters["wl:second-resolver-mounted-on-the-same-app"] += 1
@@ -111,7 +114,9 @@ def run_case(ctx, g, rng):
             # the converter the apps were built from grows while they are serving: a new record, and a synonym
             # merged into an existing one; the same paths are then requested again
             call(conv.add_prefix, late_prefix, ups.pop())
-            if rng.random() < 0.5:
+            if not recs:
+                pass  # nothing to merge into yet: the new record is the first one
+            elif rng.random() < 0.5:
                 call(conv.add_prefix, recs[0].prefix, recs[0].uri_prefix, [late_syn], merge=True)
             else:  # the merged-in record has a canonical prefix and URI prefix of its own and matches through a synonym
                 call(conv.add_record, api.Record(prefix=late_syn, uri_prefix=ups.pop(), prefix_synonyms=[rng.choice(spec.all_p(recs[0]))]), merge=True)
@@ -123,7 +128,7 @@ def run_case(ctx, g, rng):
         if step >= 18 and g % 2 == 0 and asked and rng.random() < 0.6:
             p, segs, ident = rng.choice(asked)
         else:
-            p = rng.choice(known + ["nope", "NOPE", known[0].swapcase(), late_prefix, late_syn])
+            p = rng.choice(known + ["nope", "NOPE", (known[0] if known else "GO").swapcase(), late_prefix, late_syn])
             segs = None
         if segs is not None:
             pass
